@@ -1,7 +1,7 @@
 #!/bin/bash
 # runs every seeded change against the quick check of its own property; writes selftest/kill_matrix.json
 cd /verif
-out=selftest/kill_matrix.json
+out=selftest/kill_matrix${VERIF_SEED:+_seed$VERIF_SEED}.json
 echo "{" > $out.tmp
 first=1
 for d in seeded/*/; do
